@@ -1004,6 +1004,15 @@ add("expo-07-probabilistic-step-never-taken", ["C06"], "countmin",
 add("dfg-15-single-block-skipped", ["C11"], "hashes",
     "    if nblocks > 0:\n        # Cast complete 64-bit chunks", "    if nblocks > 1:\n        # Cast complete 64-bit chunks",
     note="keys of 8..15 bytes are hashed without their first 8 bytes")
+add("joinfirst-07-hll-descriptor-not-handed-to-worker", ["C08"], "helpers",
+    "            sketch.append((\"hll\", hll_array[i].args, hll_array[i].shm.name))\n", "            pass\n",
+    note="workers never receive the HyperLogLog: the callback fails on every item (logged, skipped) and an empty HLL is returned")
+add("joinfirst-08-hh-descriptor-names-cms-block", ["C08"], "helpers",
+    "            sketch.append((\"hh\", hh_array[i].args, hh_array[i].shm.name))", "            sketch.append((\"hh\", hh_array[i].args, cms_array[i].shm.name))",
+    note="the worker's heavy-hitter view is attached to the count-min block")
+add("dead-11-filler-killed-only-when-already-finished", ["C19"], "helpers",
+    "                if fill_queue_process.exitcode is None:\n                    fill_queue_process.kill()", "                if fill_queue_process.exitcode is not None:\n                    fill_queue_process.kill()",
+    note="after a worker died the still-running filler blocks on the full queue: parallel_add hangs in fill_queue_process.join()")
 add("factory-07-num-reserved-zero-taken-for-unset", ["C16"], "countmin",
     "    elif cms_type == \"log16\":\n        if num_reserved is None:", "    elif cms_type == \"log16\":\n        if not num_reserved:",
     note="CountMin(..., num_reserved=0) builds a log16 sketch with the default 1023: an attached view decodes differently")
